@@ -58,6 +58,7 @@ class Spec(PropSpec):
             n *= 2
         cases = [F.gen_direct(ctx.rng) for _ in range(n)]
         cases += [F.gen_sim(ctx.rng) for _ in range(n // 4)]
+        cases += [F.gen_dup(ctx.rng) for _ in range(n // 8)]
         ex = F.exhaustive_small()
         if ctx.tier == "quick":
             ex = ctx.rng.sample(ex, min(len(ex), 120))
